@@ -81,7 +81,7 @@ LBecome(e) == LET s == Get(e.i) IN
     /\ s.kind = "L"
     /\ e.ok = (s.status = "FENCED" /\ e.req = s.term)
     \* C02/C01: the node serves only when the log it was elected with is committed on a quorum
-    /\ IF e.ok THEN /\ e.commit >= e.head
+    /\ IF e.ok THEN /\ (e.rf \div 2 = 0 \/ e.commit >= e.head)    \* (no follower acks are needed with RF = 1)
                     /\ inst' = Put(e.i, [s EXCEPT !.status = "LEADER", !.alloc = e.head, !.synced = e.head, !.apply = e.head])
                ELSE inst' = inst
 
